@@ -96,6 +96,15 @@ partial def schema? : SX → Option Schema
         | _ => none), req.mapM SX.str?, xreq.mapM SX.str? with
     | some refs, some ps, some req, some xreq => some (.allOf refs ps req xreq)
     | _, _, _, _ => none
+  -- (disc <oneOf:0|1> <prop> (<ref>…) ((<tag> <ref>)…))
+  | .list [.atom "disc", one, prop, .list refs, .list mp] =>
+    match one.bool?, prop.str?, refs.mapM SX.str?, mp.mapM (fun (e : SX) => match e with
+        | .list [k, r] => match k.str?, r.str? with
+          | some k, some r => some (k, r)
+          | _, _ => none
+        | _ => none) with
+    | some one, some prop, some refs, some mp => some (.disc one prop refs mp)
+    | _, _, _, _ => none
   | _ => none
 
 def defs? : SX → Option Defs
@@ -126,6 +135,7 @@ def opts? : SX → Option Opts
 def ctx? : SX → Option Ctx
   | .atom "top" => some .top
   | .atom "plain" => some .plain
+  | .atom "item" => some (.item false)
   | _ => none
 
 /-! dumps -/
@@ -173,6 +183,9 @@ partial def showTy : Ty → String
   | .ref n => "(ref " ++ encodeStr n ++ ")"
   | .opt t => "(opt " ++ showTy t ++ ")"
   | .union ts => "(union" ++ String.join (ts.map (" " ++ showTy ·)) ++ ")"
+  | .tagged prop bs =>
+    "(tagged " ++ encodeStr prop ++ String.join (bs.map (fun b =>
+      " ((" ++ " ".intercalate (b.1.map showAtom) ++ ") " ++ encodeStr b.2 ++ ")")) ++ ")"
 
 def showTri : Tri → String
   | .accept => "accept" | .reject => "reject" | .laxZone => "lax"
@@ -201,6 +214,15 @@ def handlers : List (String × Handler) := [
     | [st, o, c, s] => match style? st, opts? o, ctx? c, schema? s with
       | some st, some o, some c, some s => "ok " ++ showTy (tr st o c s)
       | _, _, _, _ => "err args"
+    | _ => "err args"),
+  -- sem.trdef <style> <routing> <defs> <body> <name>   (the class of a definition after the discriminator pass)
+  ("sem.trdef", fun
+    | [st, o, ds, body, n] => match style? st, opts? o, defs? ds, schema? body, n.str? with
+      | some st, some o, some ds, some body, some n =>
+        match (patchDefs (docSites ds body) (trDefs st o ds)).lookup n with
+        | some d => "ok " ++ showTy d
+        | none => "err no such definition"
+      | _, _, _, _, _ => "err args"
     | _ => "err args"),
   -- sem.accepts <style> <routing> <fuel> <regex-table> <defs> <schema> <json>   (document = top context)
   ("sem.accepts", fun
